@@ -426,6 +426,9 @@ func checkC02(c *hk.Ctx, s *sys, sc *scenario, wf *wfSpec, prop string) {
 						} else if c.Stats["fault.offer_late"] > 0 {
 							cause = "offer-round-without-a-host-deploys-nothing"
 						}
+					} else if strings.Contains(r.Err, "roles undeployable") && c.Stats["fault.offer_late"] > 0 {
+						// the same finding, when every one of the three attempts met such a round
+						cause = "offer-round-without-a-host-deploys-nothing"
 					}
 				}
 				viol("C02", "create-outcome", cause, "NewEnvironment: per-task outcomes say deploy ok=%v configure ok=%v, request returned error %q (state %s); tasks %s", okDeploy, okCfg, r.Err, r.State, describe(wf))
